@@ -296,6 +296,42 @@ def ismultiple_stream(ctx, n):
                 break
 
 
+def ismultiple_axes_stream(ctx, n):
+    """is_multiple over several axes given as a tuple / list, leading, trailing or mixed, on arrays whose dimensions all differ:
+    one verdict per remaining position, True exactly for (zero or) proportional sub-arrays"""
+    import geometer.utils as gu
+    rng = ctx.rng
+    for k in range(n):
+        shape = rng.choice([(3, 4, 5), (2, 3, 4), (4, 2, 3)])
+        axes = rng.choice([(0, 1), (1, 0), (-3, -2), [0, 1], (1, 2), (-2, -1), (0, 2), [2, 0]])
+        A = np.array([rng.randint(-3, 3) for _ in range(int(np.prod(shape)))], dtype=float).reshape(shape)
+        ax = tuple(a % 3 for a in axes)
+        rest = [i for i in range(3) if i not in ax][0]
+        lam = np.array([rng.choice([2.0, -1.0, 0.5, 3.0]) for _ in range(shape[rest])])
+        B = A * lam.reshape([shape[rest] if i == rest else 1 for i in range(3)])
+        exp = [True] * shape[rest]
+        for j in range(shape[rest]):
+            m = rng.random()
+            sl = [slice(None)] * 3
+            sl[rest] = j
+            if m < 0.3 and np.count_nonzero(A[tuple(sl)]) >= 2:
+                # spoil one non-zero entry of B at this position (the sub-array has another non-zero entry: no longer a multiple)
+                idx = np.argwhere(A[tuple(sl)] != 0)[0]
+                full = list(idx)
+                full.insert(rest, j)
+                B[tuple(full)] += 1.0
+                exp[j] = False
+            elif m < 0.4:
+                B[tuple(sl)] = 0.0                       # the zero array is a multiple of everything
+        desc = f"is_multiple shape={shape} axis={axes} A={A.ravel().tolist()} B={B.ravel().tolist()}"
+        ctx.case(desc)
+        ctx.count("is_multiple:axes")
+        r = call_impl(lambda: gu.is_multiple(A, B, axis=axes))
+        r2 = call_impl(lambda: gu.is_multiple(B, A, axis=axes))
+        if r[0] != "ok" or np.asarray(r[1]).tolist() != exp or r2[0] != "ok" or np.asarray(r2[1]).tolist() != exp:
+            ctx.disagree("C20:is_multiple:axes", desc, exp, (r[1:3] if r[0] != "ok" else np.asarray(r[1]).tolist(), r2[1:3] if r2[0] != "ok" else np.asarray(r2[1]).tolist()), replay=[desc])
+
+
 def hat_stream(ctx, n):
     import geometer.utils as gu
     rng = ctx.rng
@@ -318,6 +354,7 @@ def hat_stream(ctx, n):
 
 
 def correspondence(ctx):
+    ismultiple_axes_stream(ctx, ctx.budget(60, 600))
     linalg_stream(ctx, ctx.tier != "thorough")
     if ctx.tier == "thorough":
         for _ in range(4):
